@@ -1,6 +1,10 @@
 package props
 
 import (
+	"fmt"
+	"go/token"
+	"go/types"
+	"math/big"
 	"sort"
 	"strings"
 
@@ -25,6 +29,10 @@ func reportBounds(r *core.Run, p *core.Program, rule string, ba *an.BoundsAnalys
 	for _, ob := range ba.Obs {
 		key := boundsKey(ob, seen)
 		where := p.Pos(an.InstrPos(ob.Instr))
+		rule := rule
+		if ob.Kind == "progress" {
+			rule = strings.Replace(rule, "-bounds", "-progress", 1)
+		}
 		if ob.Proven {
 			r.OK(rule, key, where, ob.Need)
 		} else if why, ok := exceptions[core.FuncName(ob.Fn)+"|"+ob.Expr]; ok {
@@ -48,7 +56,10 @@ func checkC09(r *core.Run) {
 		RecoverScope:  hasRecover,
 		FieldMinLen:   map[string]int64{"lib/btc.Block.Raw": 80},
 		FieldLeLen:    map[string]string{"lib/btc.Block.TxOffset": "Raw"},
+		// assumption (recorded): stored transaction sizes are below 2^31 (a message is at most 4 MB)
+		FieldMax: map[string]int64{"lib/btc.Tx.Size": 1 << 31, "lib/btc.Tx.NoWitSize": 1 << 31},
 	}
+	r.Assume = append(r.Assume, "Tx.Size and Tx.NoWitSize are below 2^31 (used only to linearise the uint32 arithmetic of VSize)")
 	ba := an.NewBoundsAnalysis(p, cfg)
 	roots := []struct {
 		fn     string
@@ -74,6 +85,285 @@ func checkC09(r *core.Run) {
 	reportBounds(r, p, "R-C09-bounds", ba, nil)
 	r.Assume = append(r.Assume, "Block.TxOffset <= len(Block.Raw) whenever Block.TxCount != 0: the three fields are set together by UpdateContent/BuildTxListExt (each store to TxOffset is checked against the Raw of that moment) and reset to zero together; sites replacing Raw alone: "+strings.Join(ba.AssumptionSites, "; "))
 	r.Count("bounds_functions", len(ba.FuncsAnalysed))
+	c09Scope(r, p)
+	c09Canon(r, p, ba)
+	c09Witness(r, p)
+	c09Sizes(r, p, ba)
+}
+
+// c09Scope: the element decoders index their argument without length checks and rely on the
+// caller's recover scope; every static call site in the whole program must be in such a scope.
+func c09Scope(r *core.Run, p *core.Program) {
+	const rule = "R-C09-scope"
+	r.Rule(rule, "functions that index their byte-slice argument unguarded (relying on a caller's deferred recover) are called only from recover scopes")
+	// role: static callees of the recover-scope decoders that receive a sub-slice of the input
+	var elems []*ssa.Function
+	seen := map[*ssa.Function]bool{}
+	for _, rootName := range []string{"lib/btc.NewTx", "lib/btc.TxSize"} {
+		root := p.Func(rootName)
+		if root == nil {
+			r.Undecided("%s not found", rootName)
+			return
+		}
+		if !hasRecover(root) {
+			r.Fail(rule, rootName+"/recover", p.Pos(root.Pos()), "decoder no longer converts panics into a rejection (deferred recover missing)")
+			continue
+		}
+		r.OK(rule, rootName+"/recover", p.Pos(root.Pos()), "deferred recover present")
+		for _, c := range an.Calls(root, false) {
+			cal := an.StaticCallee(c)
+			if cal == nil || !core.InModule(cal) || seen[cal] || cal.Blocks == nil {
+				continue
+			}
+			takesSlice := false
+			for _, a := range c.Common().Args {
+				if _, ok := a.(*ssa.Slice); ok {
+					takesSlice = true
+				}
+			}
+			if takesSlice && !hasRecover(cal) {
+				// unguarded = some index/slice obligation on its own parameter is not provable standalone
+				ba2 := an.NewBoundsAnalysis(p, an.BoundsConfig{})
+				var tp []int
+				for i, prm := range cal.Params {
+					if _, ok := prm.Type().Underlying().(*types.Slice); ok {
+						tp = append(tp, i)
+					}
+				}
+				ba2.Root(cal, tp)
+				unguarded := false
+				for _, ob := range ba2.Obs {
+					if ob.Fn == cal && !ob.Proven && ob.Kind != "progress" && ob.Kind != "alloc" {
+						unguarded = true
+					}
+				}
+				if unguarded {
+					seen[cal] = true
+					elems = append(elems, cal)
+				}
+			}
+		}
+	}
+	r.Check(len(elems) >= 2, rule, "floor/element-decoders", "-", fmt.Sprintf("%d element decoders found", len(elems)), "element decoders not found (role resolution failed)")
+	for _, f := range p.ModuleFuncs() {
+		for _, c := range an.Calls(f, false) {
+			cal := an.StaticCallee(c)
+			if cal == nil || !seen[cal] {
+				continue
+			}
+			// the caller, or an enclosing function for closures, must be a recover scope
+			okScope := false
+			for g := f; g != nil; g = g.Parent() {
+				if hasRecover(g) {
+					okScope = true
+				}
+			}
+			key := core.FuncName(f) + " -> " + core.FuncName(cal)
+			r.Check(okScope, rule, key, p.Pos(c.Pos()), "call inside a recover scope", "call to an unguarded element decoder outside any recover scope: a short buffer panics")
+		}
+	}
+}
+
+// c09Canon: CompactSize readers return a multi-byte form only for values that need it.
+func c09Canon(r *core.Run, p *core.Program, ba *an.BoundsAnalysis) {
+	const rule = "R-C09-canon"
+	r.Rule(rule, "the slice-based CompactSize readers accept a 3/5/9-byte form only for values >= 0xfd / 0x10000 / 0x100000000 (and, for the int-returning reader, <= MaxInt64)")
+	mins := map[int64]*big.Int{3: big.NewInt(0xfd), 5: big.NewInt(0x10000), 9: new(big.Int).Lsh(big.NewInt(1), 32)}
+	for _, name := range []string{"lib/btc.VLen", "lib/btc.VULe"} {
+		fn := p.Func(name)
+		if fn == nil {
+			r.Undecided("%s not found", name)
+			return
+		}
+		sites := 0
+		ba.AtReturns(fn, func(ret *ssa.Return, lin func(ssa.Value) *an.Lin, prove func(*an.Lin) bool, show func(*an.Lin) string) {
+			if len(ret.Results) != 2 {
+				return
+			}
+			sz := lin(ret.Results[1])
+			if !sz.IsConst() || !sz.C.IsInt() {
+				r.Fail(rule, name+"/size-not-constant", p.Pos(ret.Pos()), "size result is not a constant at this return: "+show(sz))
+				return
+			}
+			n := sz.C.Num().Int64()
+			min, multi := mins[n]
+			if !multi {
+				return
+			}
+			sites++
+			v := lin(ret.Results[0])
+			key := fmt.Sprintf("%s/size=%d", name, n)
+			r.Check(prove(v.Sub(an.LinBig(min))), rule, key, p.Pos(ret.Pos()),
+				fmt.Sprintf("value >= %s entailed at the return", min), fmt.Sprintf("a %d-byte CompactSize is accepted for values below %s (non-canonical)", n, min))
+			if n == 9 && strings.HasSuffix(name, "VLen") {
+				r.Check(prove(v), rule, key+"/nonneg", p.Pos(ret.Pos()), "value >= 0 entailed", "9-byte CompactSize above MaxInt64 is returned as a negative length")
+			}
+		})
+		r.Check(sites == 3, rule, name+"/forms", p.Pos(fn.Pos()), "three multi-byte return sites", fmt.Sprintf("expected 3 multi-byte return sites, found %d", sites))
+	}
+}
+
+// c09Witness: a witness-flagged transaction whose witness stacks are all empty is refused.
+func c09Witness(r *core.Run, p *core.Program) {
+	const rule = "R-C09-witness"
+	r.Rule(rule, "NewTx rejects a marker/flag transaction in which no input has a witness: a flag that is set only under 'witness item count > 0' is tested after the witness section, its false edge returns nil, and no path from the witness section reaches an accepting return around that test")
+	fn := p.Func("lib/btc.NewTx")
+	if fn == nil {
+		r.Undecided("NewTx not found")
+		return
+	}
+	fk := an.FailKind{Result: 0, Kind: "nil"}
+	// witness section: blocks that allocate a [][]byte (one witness stack)
+	var wblocks []*ssa.BasicBlock
+	an.Instrs(fn, func(i ssa.Instruction) {
+		if ms, ok := i.(*ssa.MakeSlice); ok {
+			if sl, ok := ms.Type().Underlying().(*types.Slice); ok {
+				if in, ok := sl.Elem().Underlying().(*types.Slice); ok {
+					if b, ok := in.Elem().Underlying().(*types.Basic); ok && b.Kind() == types.Uint8 {
+						wblocks = append(wblocks, ms.Block())
+					}
+				}
+			}
+		}
+	})
+	if len(wblocks) == 0 {
+		r.Undecided("witness section of NewTx not found (no [][]byte allocation)")
+		return
+	}
+	found := false
+	var problem string
+	for _, b := range fn.Blocks {
+		iff, ok := b.Instrs[len(b.Instrs)-1].(*ssa.If)
+		if !ok {
+			continue
+		}
+		cond := iff.Cond
+		neg := false
+		if u, ok := cond.(*ssa.UnOp); ok && u.Op == token.NOT {
+			neg, cond = true, u.X
+		}
+		phi, ok := cond.(*ssa.Phi)
+		if !ok {
+			continue
+		}
+		conds := an.FlagTrueConditions(phi)
+		okSrc := len(conds) > 0
+		for _, c := range conds {
+			// witness item count > 0  (or != 0, >= 1)
+			sa := an.Atoms(c.Subject)
+			k, isC := an.ConstOf(c.Other)
+			if !an.HasAll(sa, "call:lib/btc.VLen#0") || !isC {
+				okSrc = false
+				continue
+			}
+			pos := (c.Rel == token.GTR && k.Sign() == 0) || (c.Rel == token.NEQ && k.Sign() == 0) || (c.Rel == token.GEQ && k.Cmp(big.NewInt(1)) == 0)
+			if !pos {
+				okSrc = false
+			}
+		}
+		if !okSrc {
+			continue
+		}
+		// rejecting edge: flag false
+		failSucc := b.Succs[1]
+		if neg {
+			failSucc = b.Succs[0]
+		}
+		if ok2, why := an.EdgeOutcome(p, b, failSucc, fk); !ok2 {
+			problem = "flag test at " + p.Pos(iff.Pos()) + " does not reject: " + why
+			continue
+		}
+		// no bypass: from the witness section, accepting returns are unreachable without passing b
+		reach := an.ReachableAvoiding(wblocks, b)
+		bypass := ""
+		for rb := range reach {
+			if ret, ok := rb.Instrs[len(rb.Instrs)-1].(*ssa.Return); ok && rb != fn.Recover && an.AcceptingReturnPossible(ret, fk) {
+				bypass = p.Pos(ret.Pos())
+			}
+		}
+		if bypass != "" {
+			problem = "accepting return at " + bypass + " reachable from the witness section around the flag test"
+			continue
+		}
+		found = true
+		r.OK(rule, "NewTx/superfluous-witness", p.Pos(iff.Pos()), "flag set under 'count > 0' is tested; false edge returns nil; no bypass")
+	}
+	if !found {
+		if problem == "" {
+			problem = "no test of a 'some input has a witness' flag after the witness section"
+		}
+		r.Fail(rule, "NewTx/superfluous-witness", p.Pos(fn.Pos()), problem)
+	}
+}
+
+// c09Sizes: weight and virtual size are the BIP141 linear forms of the two stored sizes.
+func c09Sizes(r *core.Run, p *core.Program, ba *an.BoundsAnalysis) {
+	const rule = "R-C09-sizes"
+	r.Rule(rule, "Tx.Weight() = 3*NoWitSize + Size and Tx.VSize() = (Weight+3)/4 as linear forms of the stored sizes; block weight starts from 4*(80+len(varint(count)))")
+	w := p.Func("lib/btc.(*Tx).Weight")
+	if w == nil {
+		r.Undecided("(*Tx).Weight not found")
+		return
+	}
+	ba.AtReturns(w, func(ret *ssa.Return, lin func(ssa.Value) *an.Lin, prove func(*an.Lin) bool, show func(*an.Lin) string) {
+		l := lin(ret.Results[0])
+		want := map[string]int64{"NoWitSize": 3, "Size": 1}
+		ok := len(l.T) == 2 && l.C.Sign() == 0
+		for a, c := range l.T {
+			m := false
+			for f, k := range want {
+				if strings.HasSuffix(a, "."+f) && c.Cmp(big.NewRat(k, 1)) == 0 {
+					m = true
+				}
+			}
+			if !m {
+				ok = false
+			}
+		}
+		r.Check(ok, rule, "Weight", p.Pos(ret.Pos()), "3*NoWitSize + Size", "Weight() is "+show(l)+", not 3*NoWitSize + Size")
+	})
+	vs := p.Func("lib/btc.(*Tx).VSize")
+	if vs == nil {
+		r.Undecided("(*Tx).VSize not found")
+		return
+	}
+	// VSize: on the witness path the returned value q satisfies 4q <= 3*NoWit + Size + 3 <= 4q + 3
+	n := 0
+	ba.AtReturns(vs, func(ret *ssa.Return, lin func(ssa.Value) *an.Lin, prove func(*an.Lin) bool, show func(*an.Lin) string) {
+		n++
+		l := lin(ret.Results[0])
+		// find the field atoms
+		var nowit, size string
+		for _, cnd := range []ssa.Value{ret.Results[0]} {
+			for a := range an.Atoms(cnd) {
+				_ = a
+			}
+		}
+		an.Instrs(vs, func(i ssa.Instruction) {
+			if ld, ok := i.(*ssa.UnOp); ok && ld.Op == token.MUL {
+				if fa, ok := ld.X.(*ssa.FieldAddr); ok {
+					f, _ := an.FieldOf(fa)
+					ll := lin(ld)
+					for a := range ll.T {
+						if strings.HasSuffix(f, ".NoWitSize") {
+							nowit = a
+						}
+						if strings.HasSuffix(f, ".Size") {
+							size = a
+						}
+					}
+				}
+			}
+		})
+		if nowit == "" || size == "" {
+			r.Fail(rule, fmt.Sprintf("VSize/return%d", n), p.Pos(ret.Pos()), "size fields not found in VSize")
+			return
+		}
+		wgt := an.LinAtom(nowit).Scale(3).Add(an.LinAtom(size))
+		q4 := l.Scale(4)
+		ok := prove(wgt.AddConst(3).Sub(q4)) && prove(q4.AddConst(3).Sub(wgt.AddConst(3)))
+		r.Check(ok, rule, fmt.Sprintf("VSize/return%d", n), p.Pos(ret.Pos()), "4*VSize <= Weight+3 <= 4*VSize+3 entailed", "VSize() is not ceil(Weight/4): returned "+show(l))
+	})
 }
 
 var _ = ssa.BuilderMode(0)
